@@ -162,6 +162,9 @@ def report(kind, A, y, x, r, rec, case, kappa=None, refs=None):
 
 
 # ---------------------------------------------------------------- monitors
+FAILPOINT = {"arm": None, "calls": 0, "fired": 0}
+
+
 def attach(rec, log=None):
     """icontract postconditions on the real functions.  `log` (list) receives (kind, A, y, x, r)."""
     import glotaran.optimization.estimation_provider as ep
@@ -186,8 +189,23 @@ def attach(rec, log=None):
 
     ensure(vp, "residual_variable_projection", make("vp"), rec, snapshot=snap)
     ensure(nn, "residual_nnls", make("nnls"), rec, snapshot=snap)
-    ep.SUPPORTED_RESIUDAL_FUNCTIONS["variable_projection"] = vp.residual_variable_projection
-    ep.SUPPORTED_RESIUDAL_FUNCTIONS["non_negative_least_squares"] = nn.residual_nnls
+
+    def with_failpoint(fn):
+        # fault injection: the armed call raises what scipy's solver raises when it gives up; a caller that turns
+        # the fault into an answer is judged by the provider-level postcondition below
+        def residual_function(matrix, data):
+            FAILPOINT["calls"] += 1
+            if FAILPOINT["arm"] is not None and FAILPOINT["calls"] == FAILPOINT["arm"]:
+                FAILPOINT["arm"] = None
+                FAILPOINT["fired"] += 1
+                rec.count("solver_faults_injected")
+                raise RuntimeError("Maximum number of iterations reached. (injected)")
+            return fn(matrix, data)
+
+        return residual_function
+
+    ep.SUPPORTED_RESIUDAL_FUNCTIONS["variable_projection"] = with_failpoint(vp.residual_variable_projection)
+    ep.SUPPORTED_RESIUDAL_FUNCTIONS["non_negative_least_squares"] = with_failpoint(nn.residual_nnls)
     # names imported into estimation_provider
     ep.residual_variable_projection = vp.residual_variable_projection
     ep.residual_nnls = nn.residual_nnls
@@ -196,7 +214,7 @@ def attach(rec, log=None):
         rec.count("contract:calculate_residual")
         if log is not None:
             kind = "nnls" if self.group.residual_function == "non_negative_least_squares" else "vp"
-            log.append(("provider:" + kind, None, None, None, None, None))
+            log.append(("provider:" + kind, np.array(matrix, copy=True), np.array(data, copy=True), np.array(result[0], copy=True), np.array(result[1], copy=True), None))
         return True
 
     ensure(ep.EstimationProvider, "calculate_residual", cond_provider, rec)
@@ -427,17 +445,36 @@ def insitu(spec, rec, log, rng):
         del log[:]
         from vf.core import CaseTimeout, time_limit
 
+        FAILPOINT["calls"] = 0
+        FAILPOINT["arm"] = int(rng.integers(1, 60)) if i % 3 == 0 else None
+        injected = False
         try:
             with time_limit(60):
                 optimize(scheme, verbose=False, raise_exception=True)
         except (Exception, CaseTimeout) as e:  # noqa
-            rec.note(f"insitu optimisation raised {type(e).__name__}: {e}")
-            rec.skip("insitu optimisation raised")
-            continue
+            injected = "(injected)" in str(e)
+            if not injected:
+                rec.note(f"insitu optimisation raised {type(e).__name__}: {e}")
+                rec.skip("insitu optimisation raised")
+                FAILPOINT["arm"] = None
+                continue
+        FAILPOINT["arm"] = None
         solves = [l for l in log if not l[0].startswith("provider:")]
         prov = [l for l in log if l[0].startswith("provider:")]
         if len(prov) != len(solves):
             rec.violation("insitu:bypass", desc, f"{len(prov)} provider solves but {len(solves)} contracted residual calls")
+        # what calculate_residual HANDS ON must itself carry the certificate for the matrix and data it was given
+        # (a retry / fallback inside the provider may not return clps of a different problem)
+        pstep = max(1, len(prov) // 200)
+        for pk, A, y, x, r, _ in prov[::pstep]:
+            if A.shape[1] == 0 or not (np.isfinite(A).all() and np.isfinite(y).all()):
+                continue
+            sv = np.linalg.svd(A, compute_uv=False)
+            kap = float(sv[0] / sv[-1]) if sv[-1] > 0 else float("inf")
+            if not kap <= KAPPA_MAX:
+                continue
+            report(pk.split(":")[1], A, y, x, r, rec, dict(desc, insitu=True, level="calculate_residual"), kap, refs=(A, y))
+            rec.count("insitu_provider_results_checked")
         step = max(1, len(solves) // 400)
         for kind, A, y, x, r, refs in solves[::step]:
             if A.shape[1] == 0:
